@@ -135,6 +135,18 @@ def make_harness(n_ops: int, first: int | None):
         from pyoak.origin import concat_origins, merge_origins
 
         srcs, pool = _pool()
+        earlier = e.flag("equal_source_with_other_text_sliced_earlier")
+        if earlier:
+            # an equal source (same uri and type: the text is no part of source equality) holding
+            # another text -- a buffer re-parsed after an edit -- was sliced at every range before
+            from pyoak.origin import CodeOrigin, MemoryTextSource, get_code_range
+
+            for k in range(3):
+                twin = MemoryTextSource(_raw=TEXTS[(k + 1) % 3][::-1], source_uri=f"S{k}")
+                for a in sorted({r[0] for r in RANGES}):
+                    for b in sorted({r[1] for r in RANGES}):
+                        if a <= b:
+                            CodeOrigin(twin, get_code_range(a, 1, a, b, 1, b)).get_raw()
         idx = []
         for k in range(n_ops):
             if k == 0 and first is not None:
@@ -143,7 +155,7 @@ def make_harness(n_ops: int, first: int | None):
                 idx.append(e.choice(len(pool), f"operand{k}"))
         ops = [pool[i] for i in idx]
         mode = e.pick(["merge", "concat", "plus"], "function")
-        scenario = {"operands": [_describe(d) for d, _ in ops], "function": mode}
+        scenario = {"operands": [_describe(d) for d, _ in ops], "function": mode, "equal_source_with_other_text_sliced_earlier": earlier}
         objs = [o for _, o in ops]
         if mode == "merge":
             got = merge_origins(*objs)
@@ -166,7 +178,7 @@ def make_harness(n_ops: int, first: int | None):
                 e.assume(False)
             got = objs[0] + objs[1]
             _expect_add(e, srcs, ops[0], ops[1], got, scenario, "+")
-        e.distinct((tuple(idx), mode))
+        e.distinct((tuple(idx), mode, earlier))
         return scenario
 
     return harness
